@@ -12,7 +12,8 @@ open Lean D2V.Drv D2V.Quote D2V.Gen.Quote
     * every connection ID parses back (real d2parser.ParseMapKey) to container / source / arrow / destination /
       index that resolve to this connection's endpoints, no two connections of the board share an ID (ignoring
       case), and no two connections share (source, destination, arrows, index).
-  Model-vs-impl: ID = fmtKey name, AbsID = IDs joined with ".", Edge.AbsID = model `edgeAbsID`.
+  Model-vs-impl: ID = fmtKey name, AbsID = IDs joined with ".", Edge.AbsID = model `edgeAbsID`, and the model of
+  ParseMapKey on connection IDs (`parseEdgeID`) against the real one, on the board's IDs and on edge-like texts (`pmk`).
 -/
 
 namespace D2V.Drv.C06
@@ -168,6 +169,26 @@ def idsOk (objs : Array Obj) (edges : Array EdgeO) : Except String (Option (Stri
   | some f => return some f
   | none => return fails[0]?
 
+/-- model `parseEdgeID` on `text` against the observation of d2parser.ParseMapKey; `none` = agree (or the text is
+    outside the model) -/
+def cmpParseEdge (text : Str) (o : Json) : Except String (Option String) := do
+  let res ← getStr o "res"
+  match parseEdgeID text with
+  | .unsupported => return none
+  | .err => if res == "err" then return none else return some s!"model: error, go: {res} on {show' text}"
+  | .ok common src dst sa da idx _ =>
+    if res != "ok" then return some s!"model: ok, go: {res} {(getStr o "msg").toOption.getD ""} on {show' text}"
+    if (getBool o "odd").toOption.getD false then return some s!"go parsed a * arrowhead, the model did not, on {show' text}"
+    let gc ← pathVals o "common"
+    let gs ← pathVals o "src"
+    let gd ← pathVals o "dst"
+    let gsa ← getBool o "srcArrow"
+    let gda ← getBool o "dstArrow"
+    let gi ← getNat o "index"
+    if gc == common.map (·.val) && gs == src.map (·.val) && gd == dst.map (·.val) && gsa == sa && gda == da && gi == idx then
+      return none
+    return some s!"model {common.map (fun g => show' g.val)}.({src.map (fun g => show' g.val)} {sa}/{da} {dst.map (fun g => show' g.val)})[{idx}] vs go {gc.map show'}.({gs.map show'} {gsa}/{gda} {gd.map show'})[{gi}] on {show' text}"
+
 def handleBoard (j : Json) : Except String Verdict := do
   let o ← getObj j "out"
   if let .ok p := getStr o "panic" then return .specfalse "observe-panic" (clean p)
@@ -189,12 +210,19 @@ def handleBoard (j : Json) : Except String Verdict := do
       let m := edgeAbsID (cs.map fun k => objs[k]!.id) (cd.map fun k => objs[k]!.id) e.srcArrow e.dstArrow e.index
       if m != e.absid then return .mismatch "edgeid" (clean s!"model {show' m} vs go {show' e.absid}")
     | _, _ => pure ()
+    if let some d ← cmpParseEdge e.absid e.parse then return .mismatch "parse-edge-id" (clean d)
   return .ok
 
 def handle (j : Json) : Except String Verdict := do
   let k ← getStr j "k"
   match k with
   | "board" => handleBoard j
+  | "pmk" =>
+    let t ← getS (← getObj j "in") "t"
+    if parseEdgeID t == .unsupported then return .skip "outside-the-parser-model"
+    match ← cmpParseEdge t (← getObj j "out") with
+    | some d => return .mismatch "parse-map-key" (clean d)
+    | none => return .ok
   | "compile-panic" =>
     let o ← getObj j "out"
     return .skip s!"compile-panic(C07): {clean ((getStr o "msg").toOption.getD "")}"
